@@ -192,7 +192,7 @@ package raft
 //@ func (*leader).setCommitIndex
 //@   requires LeaderWF(l) && l.flushed >= l.commitIndex
 //@   requires [C02.leader-commit-rule] l.commitIndex < index && index <= l.lastLogIndex
-//@   modifies l.node, l.numVoters, l.neHead, l.neTail, l.waitStable, l.state, l.leader, l.commitIndex, l.storage.lastLogIndex, l.storage.lastLogTerm, l.storage.gterm, l.storage.gtyp, l.storage.flushed, l.storage.configs, Log.glast, contents(l.repls), replication.status, round.Ordinal, round.Start, round.End, round.LastIndex, newEntry.next, entry.index, entry.term, task.result, task.greplied, contents(l.resolver.addrs), contents(l.connPools), closeRequested
+//@   modifies l.node, l.numVoters, l.neHead, l.neTail, l.waitStable, l.state, l.leader, l.commitIndex, l.storage.lastLogIndex, l.storage.lastLogTerm, l.storage.gterm, l.storage.gtyp, l.storage.flushed, l.storage.configs, Log.glast, contents(l.repls), replication.status, round.Ordinal, round.Start, round.End, round.LastIndex, newEntry.next, entry.index, entry.term, task.result, task.greplied, contents(l.resolver.addrs), contents(l.connPools), closeRequested, sortgen
 //@   maypanic OpError
 //@   ensures [C06.flush-before-advance] l.flushed >= l.commitIndex
 //@   crash_inv [C06.flush-before-advance] l.flushed >= l.commitIndex
@@ -211,7 +211,7 @@ package raft
 
 //@ func (*leader).onMajorityCommit
 //@   requires LeaderWF(l) && l.flushed >= l.commitIndex
-//@   modifies l.node, l.numVoters, l.neHead, l.neTail, l.waitStable, l.state, l.leader, l.commitIndex, l.storage.lastLogIndex, l.storage.lastLogTerm, l.storage.gterm, l.storage.gtyp, l.storage.flushed, l.storage.configs, Log.glast, contents(l.repls), replication.status, round.Ordinal, round.Start, round.End, round.LastIndex, newEntry.next, entry.index, entry.term, task.result, task.greplied, contents(l.resolver.addrs), contents(l.connPools), closeRequested
+//@   modifies l.node, l.numVoters, l.neHead, l.neTail, l.waitStable, l.state, l.leader, l.commitIndex, l.storage.lastLogIndex, l.storage.lastLogTerm, l.storage.gterm, l.storage.gtyp, l.storage.flushed, l.storage.configs, Log.glast, contents(l.repls), replication.status, round.Ordinal, round.Start, round.End, round.LastIndex, newEntry.next, entry.index, entry.term, task.result, task.greplied, contents(l.resolver.addrs), contents(l.connPools), closeRequested, sortgen
 //@   maypanic OpError
 //@   ensures [C02.leader-commit-rule] l.commitIndex != old(l.commitIndex) ==> l.commitIndex > old(l.commitIndex) && l.commitIndex >= l.startIndex && l.commitIndex <= l.lastLogIndex
 //@   ensures [C06.flush-before-advance] l.flushed >= l.commitIndex
@@ -284,7 +284,7 @@ package raft
 
 //@ func (*leader).storeEntry params(l, ne0)
 //@   requires LeaderWF(l) && l.flushed >= l.commitIndex
-//@   modifies l.node, l.numVoters, l.neHead, l.neTail, l.waitStable, l.state, l.leader, l.commitIndex, l.storage.lastLogIndex, l.storage.lastLogTerm, l.storage.gterm, l.storage.gtyp, l.storage.flushed, l.storage.configs, Log.glast, contents(l.repls), replication.status, round.Ordinal, round.Start, round.End, round.LastIndex, newEntry.next, entry.index, entry.term, task.result, task.greplied, contents(l.resolver.addrs), contents(l.connPools), closeRequested
+//@   modifies l.node, l.numVoters, l.neHead, l.neTail, l.waitStable, l.state, l.leader, l.commitIndex, l.storage.lastLogIndex, l.storage.lastLogTerm, l.storage.gterm, l.storage.gtyp, l.storage.flushed, l.storage.configs, Log.glast, contents(l.repls), replication.status, round.Ordinal, round.Start, round.End, round.LastIndex, newEntry.next, entry.index, entry.term, task.result, task.greplied, contents(l.resolver.addrs), contents(l.connPools), closeRequested, sortgen
 //@   maypanic OpError
 //@   props C15
 //@   ensures [C07.reject-during-transfer] old(HY(l, ne0) && l.transfer.timer.active) ==> l.lastLogIndex == old(l.lastLogIndex) && forall(i, l.gterm[i] == old(l.gterm[i]) && l.gtyp[i] == old(l.gtyp[i])) && forall(x, old(l.gch[x]) && TaskOf(x) != nil ==> GRep(TaskOf(x)) == old(GRep(TaskOf(x))) + 1 && InProg(TaskOf(x)))
@@ -344,7 +344,7 @@ package raft
 //@   requires [C08.anchor] Anchor(l.configs.Latest)
 //@   requires [C11.self-not-promoted] SelfOK(l.configs.Latest, l.nid)
 //@   modifies l.startIndex, l.replUpdateCh, l.removeLTE
-//@   modifies l.node, l.numVoters, l.neHead, l.neTail, l.waitStable, l.state, l.leader, l.commitIndex, l.storage.lastLogIndex, l.storage.lastLogTerm, l.storage.gterm, l.storage.gtyp, l.storage.flushed, l.storage.configs, Log.glast, contents(l.repls), replication.status, round.Ordinal, round.Start, round.End, round.LastIndex, newEntry.next, entry.index, entry.term, task.result, task.greplied, contents(l.resolver.addrs), contents(l.connPools), closeRequested
+//@   modifies l.node, l.numVoters, l.neHead, l.neTail, l.waitStable, l.state, l.leader, l.commitIndex, l.storage.lastLogIndex, l.storage.lastLogTerm, l.storage.gterm, l.storage.gtyp, l.storage.flushed, l.storage.configs, Log.glast, contents(l.repls), replication.status, round.Ordinal, round.Start, round.End, round.LastIndex, newEntry.next, entry.index, entry.term, task.result, task.greplied, contents(l.resolver.addrs), contents(l.connPools), closeRequested, sortgen
 //@   maypanic OpError
 //@   props C15
 //@   ensures [C02.start-index] l.startIndex == old(l.lastLogIndex) + 1 && l.term == old(l.term)
